@@ -50,7 +50,7 @@ import (
 	"verif/internal/core"
 )
 
-func main() { core.Main("C22", "exploration", run, replay, worker) }
+func main() { core.Main("C22", "fault_enumeration", run, replay, worker) }
 
 // ---------------------------------------------------------------------------------------------
 // Seeds and tokenization.
